@@ -46,6 +46,13 @@ theorem SegsRel.length {src} : ∀ {as bs : List Segment}, SegsRel src as bs →
   | [], _ :: _, h => h.elim
   | _ :: _, [], h => h.elim
 
+/-- the sources for which the relation also relates `HasBlankPreviousLines` (of every node but A's Document / B's
+    Blockquote): no line of the source is blank. Then every call of `openBlocks` gets the same flag in both runs: the
+    calls below an opened container ask `isBlankLine` one level deeper in the prefixed run and the statistics are
+    shifted accordingly, and the calls for children of the Document (where the levels are NOT shifted) answer `false`
+    in both runs because the line before is not blank. (With blank lines the flags of the Document's children differ.) -/
+def FL (src : Bytes) : Prop := ∀ k ls, LineAt src k ls → isBlank (sub src ls (lineEnd src ls)) = false
+
 /-- the raw block kinds (`IsRaw()`: CodeBlock, FencedCodeBlock, HTMLBlock) — `GM.Proof.BlocksWF0.isRaw` -/
 def rawK : Kind → Bool
   | .codeBlock | .fencedCodeBlock | .htmlBlock => true
@@ -71,17 +78,18 @@ structure NodeRel (src : Bytes) (root : Bool) (a b : Node) : Prop where
   rawNE : rawK a.kind = true → ∀ l ∈ a.lines, l.start < l.stop
   infoNE : ∀ i, a.info = some i → i.start < i.stop
   closNE : 0 ≤ a.closure.start → a.closure.start < a.closure.stop
+  blank : FL src → root = false → b.blankPrev = a.blankPrev
 
 theorem nodeRel_default (src : Bytes) : NodeRel src false (default : Node) (default : Node) := by
   refine ⟨rfl, rfl, rfl, trivial, rfl, rfl, rfl, rfl, rfl, rfl, rfl, trivial, .inl ⟨by decide, rfl⟩,
-    (fun _ l hl => by cases hl), (fun i hi => by cases hi), (fun h => absurd h (by decide))⟩
+    (fun _ l hl => by cases hl), (fun i hi => by cases hi), (fun h => absurd h (by decide)), (fun _ _ => rfl)⟩
 
 /-- a freshly built node without lines -/
 theorem nodeRel_new (src : Bytes) (n : Node) (h1 : n.parent = none) (h2 : n.children = []) (h3 : n.lines = [])
     (h4 : n.info = none) (h5 : n.closure.start < 0) : NodeRel src false n n := by
   refine ⟨rfl, by simp [h1], by simp [h2], by rw [h3]; trivial, rfl, rfl, rfl, rfl, rfl, rfl, rfl, by rw [h4]; trivial,
     .inl ⟨h5, rfl⟩, (fun _ l hl => by rw [h3] at hl; cases hl), (fun i hi => by rw [h4] at hi; cases hi),
-    (fun h => by omega)⟩
+    (fun h => by omega), (fun _ _ => rfl)⟩
 
 structure StoreRel (src : Bytes) (nA nB : List Node) : Prop where
   len : nB.length = nA.length + 1
